@@ -131,6 +131,15 @@ def worlds(tier):
                     w["haps"]["S1"]["chrC"] = [list(e[0])] + [[1] * p for _ in e[1:]]
                     w["reads"] += [{"sample": "S1", "chrom": "chrC", "hap": h, "segs": [[0, len(e) - 1, 6, 6]], "n": 2} for h in range(p)]
                     yield inst
+    # a block boundary (coverage gap) between two variants on neighbouring bases
+    for p, k in [(2, 4), (3, 4), (4, 4)]:
+        mats = list(hap_matrices(p, k))
+        mats = mats[:: max(1, len(mats) // (120 if T else 30))]
+        gap = [r for n_, r in read_designs(p, k, T) if n_ == "gap"][0]
+        for m in mats:
+            for B in (0, 4):
+                for tag in ("PS", "HP"):
+                    yield mk(seed, p, k, m, "gap", gap, dict(block_cut_sensitivity=B, tag=tag), adjacent_at=2)
     # --min-overlap 3: reads covering fewer than three variants are dropped (variants they alone cover stay unphased)
     for p, k in [(2, 4), (3, 4), (4, 4)] + ([(3, 5)] if T else []):
         mats = list(hap_matrices(p, k))
@@ -148,7 +157,7 @@ def worlds(tier):
                 yield mk(seed, p, k, m, dname, reads, dict(block_cut_sensitivity=4, tag="PS", distrust_genotypes=True), extra=True)
 
 
-def mk(seed, p, k, m, dname, reads, opts, extra=False, multi=False, prephase=False):
+def mk(seed, p, k, m, dname, reads, opts, extra=False, multi=False, prephase=False, adjacent_at=None):
     # extra: a homozygous and a missing-genotype record between the heterozygous ones
     cols = []  # (kind, alleles per haplotype)
     for c in range(k):
@@ -162,6 +171,8 @@ def mk(seed, p, k, m, dname, reads, opts, extra=False, multi=False, prephase=Fal
     het_index = []
     for i, (kind, al) in enumerate(cols):
         v = {"pos": 60 + 40 * i, "kind": "SNV", "len": 1}
+        if adjacent_at is not None and i >= adjacent_at:
+            v["pos"] -= 39  # record adjacent_at lies on the base right behind its predecessor
         if multi and al is not None and 2 in al:
             v["multi"] = True
         vs.append(v)
